@@ -2,6 +2,7 @@
 import json
 import random
 import warnings
+from collections import Counter, defaultdict
 
 import bs4
 import soupsieve as sv
@@ -13,20 +14,52 @@ from props import common_match
 warnings.simplefilter('ignore')
 PID = 'C11'
 SOURCES = ['SoupVerif/Properties/C11.lean', 'SoupVerif/Lemmas/Names.lean', 'SoupVerif/Model/Match.lean']
-RULE = ('one logical tree (mixed-case tag names, attribute names and values, a type attribute) materialised by html.parser, lxml, '
-        'html5lib, as XHTML (lxml-xml with the XHTML namespace) and as plain XML; selectors over its vocabulary with every '
-        'name and value case-permuted (all masks up to 4 letters), with and without the i / s flags, plus HTML-only '
-        'pseudo-classes. Checked on PY: in the HTML materialisations a case-variant of tag/attribute names selects the same '
-        'elements; [a=v] selects exactly the elements whose stored value equals v (case-insensitively iff a is "type" or the i '
-        'flag is given; s forces exact); in XML/XHTML names and values are exact unless i; HTML-only pseudo-classes select '
-        'nothing in plain XML. And PY = Lean matcher model on the tree each parser stored. Non-trivial = non-empty result.')
+RULE = ('one logical tree (mixed-case tag names, attribute names and values, a type attribute; inline SVG / MathML whose element '
+        'and attribute names -- viewBox, preserveAspectRatio, definitionURL, ... -- html5lib stores with upper-case letters, '
+        'xlink:* attributes) materialised by html.parser, lxml, html5lib, as XHTML (lxml-xml with the XHTML namespace) and as '
+        'plain XML, and stored through the bs4 object API (plain HTML, namespace-aware HTML, XHTML, XML) with attribute names in '
+        'arbitrary case and namespaced attribute keys; selectors over the names that occur in each document and over the '
+        'vocabulary, every name and value case-permuted (as given, lower, upper, random masks), with and without the i / s flags, '
+        'with and without a namespace prefix on the attribute, plus HTML-only pseudo-classes. Checked on PY against an oracle '
+        'that reads only the stored tree: in HTML documents [a] / tag selects exactly the elements with a stored name equal '
+        'to it up to ASCII case (so every case-variant selects the same elements), in XML/XHTML exactly the equal ones; [a=v] '
+        'selects exactly the elements whose stored value equals v (case-insensitively iff a is "type" or the i flag is given; s '
+        'forces exact); [p|a] / [*|a] follow the same rule on the local name; HTML-only pseudo-classes select nothing in plain '
+        'XML. And PY = Lean matcher model on the tree each parser / the API stored. Non-trivial = non-empty result.')
 
 TAGS = ['div', 'Div', 'P', 'span', 'SPAN', 'a']
 FOREIGN = ['foreignObject', 'linearGradient', 'clipPath', 'circle', 'textPath']
+MATHML = ['mi', 'mrow', 'annotation-xml']
 ANAMES = ['title', 'Title', 'DATA-X', 'type', 'Type', 'lang']
+# attribute names that a conforming HTML tree builder (html5lib) stores with upper-case letters on SVG / MathML elements,
+# whatever their spelling in the source; html.parser and lxml lower-case them; XML keeps the source spelling
+SVG_ATTRS = ['viewBox', 'preserveAspectRatio', 'gradientUnits', 'gradientTransform', 'patternUnits', 'clipPathUnits', 'refX',
+             'startOffset', 'stdDeviation', 'textLength', 'attributeName', 'baseFrequency']
+MATH_ATTRS = ['definitionURL']
+XLINK_ATTRS = ['xlink:href', 'xlink:title', 'xlink:type']
 AVALS = ['abc', 'ABC', 'Abc', 'x', 'X', 'text', 'TEXT', 'Radio']
 HTML_ONLY = [':checked', ':disabled', ':enabled', ':required', ':optional', ':read-write', ':read-only', ':link', ':any-link',
              ':default', ':indeterminate', ':placeholder-shown', ':in-range', ':out-of-range', ':dir(ltr)', ':dir(rtl)', ':defined']
+MATHML_NS = 'http://www.w3.org/1998/Math/MathML'
+XMLNS_NS = 'http://www.w3.org/2000/xmlns/'
+NSMAP = {'xl': gen.XLINK}
+NS_OF_PREFIX = {'xlink': gen.XLINK, 'xmlns': XMLNS_NS}
+SELECT_ALL = [('select', [], 0)]
+
+
+def spelled(r, name):
+    """Source spelling of a foreign attribute name: mostly canonical, sometimes all lower / all upper case."""
+    return r.choice([name, name, name, name.lower(), name.upper()])
+
+
+def foreign_attrs(r, pool, lo=0, hi=2):
+    out = [('title', r.choice(AVALS))] if r.random() < 0.6 else []
+    for a in r.sample(pool, min(len(pool), r.randint(lo, hi))):
+        out.append((spelled(r, a), r.choice(AVALS)))
+    if r.random() < 0.35:
+        out.append((r.choice(XLINK_ATTRS), r.choice(AVALS)))
+    r.shuffle(out)
+    return out
 
 
 def tree(r, depth=0):
@@ -41,31 +74,173 @@ def tree(r, depth=0):
     name = r.choice(TAGS + ['input', 'INPUT'])
     if name.lower() == 'input':
         kids = []
-    if depth < 2 and r.random() < 0.25:
-        # inline SVG with mixed-case element names (html5lib keeps them and puts them in the SVG namespace)
-        inner = [('e', r.choice(FOREIGN), None, None, [('title', r.choice(AVALS))], [tree(r, 3)] if r.random() < 0.5 else [])
+    if depth < 2 and r.random() < 0.3:
+        # inline SVG with mixed-case element names and mixed-case attribute names (html5lib keeps / restores them and puts
+        # the elements in the SVG namespace, xlink:* attributes in the XLink namespace)
+        inner = [('e', r.choice(FOREIGN), None, gen.SVG, foreign_attrs(r, SVG_ATTRS),
+                  [tree(r, 3)] if r.random() < 0.5 else [])
                  for _ in range(r.randint(1, 3))]
-        kids.append(('e', 'svg', None, None, [], inner))
+        kids.append(('e', 'svg', None, gen.SVG, [('xmlns:xlink', gen.XLINK)] + foreign_attrs(r, SVG_ATTRS, 1, 2), inner))
+    if depth < 2 and r.random() < 0.15:
+        inner = [('e', r.choice(MATHML), None, MATHML_NS, foreign_attrs(r, MATH_ATTRS, 0, 1), [('t', 'x')] if r.random() < 0.5 else [])
+                 for _ in range(r.randint(1, 2))]
+        kids.append(('e', 'math', None, MATHML_NS, [('xmlns:xlink', gen.XLINK)] + foreign_attrs(r, MATH_ATTRS, 0, 1), inner))
     return ('e', name, None, None, attrs, kids)
 
 
+def recase(r, s):
+    return ''.join(c.swapcase() if c.isalpha() and r.random() < 0.5 else c for c in s)
+
+
+def api_tree(r, t):
+    """The same tree for the bs4 object API: `p:name` keys become namespaced keys ([prefix, local name, URI]) and -- because
+    nothing lower-cases what a program stores -- about half of the attribute names get a random ASCII case (never two names
+    of one element that differ only in case)."""
+    if t[0] != 'e':
+        return t
+    _, name, prefix, ns, attrs, kids = t
+    out, seen = [], set()
+    for k, v in attrs:
+        pfx, _, local = k.rpartition(':')
+        if pfx != 'xmlns' and r.random() < 0.5:
+            local = recase(r, local)
+        key = [pfx, local, NS_OF_PREFIX[pfx]] if pfx else local
+        if (pfx, local.lower()) in seen:
+            continue
+        seen.add((pfx, local.lower()))
+        out.append((key, v))
+    return ('e', name, prefix, ns, out, [api_tree(r, c) for c in kids])
+
+
 def case_variants(r, s):
-    letters = [i for i, c in enumerate(s) if c.isalpha()]
-    out = []
-    for _ in range(3):
-        t = list(s)
-        for i in letters:
-            if r.random() < 0.5:
-                t[i] = t[i].swapcase()
-        out.append(''.join(t))
-    return out
+    """The name as given, all lower, all upper, and three random case masks (distinct, in that order)."""
+    out = [s, s.lower(), s.upper()] + [recase(r, s) for _ in range(3)]
+    return [v for i, v in enumerate(out) if v not in out[:i]]
 
 
 def stored(e, name, xml):
     for k, v in e.attrs.items():
-        if (k == name) if xml else (k.lower() == name.lower()):
+        if (str(k) == name) if xml else (str(k).lower() == name.lower()):
             return v if isinstance(v, str) else ' '.join(v)
     return None
+
+
+def pick(r, present, vocabulary, k):
+    """Up to k names that occur in the document plus one from the vocabulary (which may or may not occur)."""
+    present = sorted(present)
+    out = r.sample(present, min(k, len(present))) + [r.choice(vocabulary)]
+    return [v for i, v in enumerate(out) if v not in out[:i]]
+
+
+def eval_rules(rng, state, label, soup, nsaware, plain_xml, base_case):
+    """The case rules of the property, evaluated with an oracle that reads only what the tree stores.
+    `base_case` holds the document part of a replayable correspondence case."""
+    xml = bool(soup._is_xml)
+    els = gen.elements(soup)
+    n0 = len(state['bad'])
+
+    def eq(a, b):
+        return a == b if xml else a.lower() == b.lower()
+
+    def bad(rule, selector, ns=None, **kw):
+        state['bad'].append({'rule': rule, 'document': label, 'selector': selector, **kw,
+                             'case': {**base_case, 'selector': selector, 'ns': ns, 'queries': SELECT_ALL}})
+
+    def sel(s, ns=None):
+        return [id(e) for e in sv.select(s, soup, namespaces=ns)]
+
+    state['checks'] += 1
+    state['docs'][label] += 1
+    try:
+        # ---- tag names
+        for tag in pick(rng, {e.name for e in els if ':' not in e.name}, TAGS + FOREIGN + MATHML + ['svg', 'math'], 2):
+            base = sel(tag)
+            for v in case_variants(rng, tag):
+                got = sel(v)
+                state['tag_variants'] += 1
+                if not xml and got != base:
+                    bad('HTML tag names fold', v, base_selector=tag)
+                if got != [id(e) for e in els if eq(e.name, v)]:
+                    bad('tag name rule (fold in HTML, exact in XML/XHTML) against the stored names', v)
+        # ---- attribute names, no namespace prefix in the selector: the whole stored key is compared
+        keys = {str(k) for e in els for k in e.attrs}
+        plain = {k for k in keys if ':' not in k}
+        for an in pick(rng, plain, ANAMES + SVG_ATTRS + MATH_ATTRS, 3):
+            base = sel(f'[{an}]')
+            for v in case_variants(rng, an):
+                got = sel(f'[{v}]')
+                state['attr_variants'] += 1
+                if any(c.isupper() for k in keys if k.lower() == v.lower() for c in k) and not xml:
+                    state['attr_variants_on_stored_uppercase_html'] += 1
+                if not xml and got != base:
+                    bad('HTML attribute names fold', f'[{v}]', base_selector=f'[{an}]')
+                if got != [id(e) for e in els if any(eq(str(k), v) for k in e.attrs)]:
+                    bad('attribute name rule (fold in HTML, exact in XML/XHTML) against the stored names', f'[{v}]')
+        # ---- attribute values
+        for an in pick(rng, plain, ANAMES + SVG_ATTRS, 2):
+            vals = sorted({x for e in els for x in [stored(e, an, False)] if x is not None and x.isalnum()})
+            for av in pick(rng, vals, AVALS, 1):
+                av = rng.choice([av, recase(rng, av)])
+                for name_v in [an, recase(rng, an)]:
+                    flag = rng.choice(['', '', ' i', ' s'])
+                    s = f'[{name_v}="{av}"{flag}]'
+                    got = sel(s)
+                    state['value_checks'] += 1
+                    insens = flag == ' i' or (flag == '' and name_v.lower() == 'type' and not xml)
+                    want = []
+                    for e in els:
+                        sval = stored(e, name_v, xml)
+                        if sval is not None and ((sval.lower() == av.lower()) if insens else (sval == av)):
+                            want.append(id(e))
+                    if got != want:
+                        bad('value case rule', s, got=len(got), want=len(want))
+        # ---- attribute names with a namespace prefix in the selector: the local name follows the same case rule
+        locals_ = {k.name for e in els for k in e.attrs if getattr(k, 'namespace', None) == gen.XLINK}
+        for local in pick(rng, locals_, ['href', 'title', 'type', 'viewBox'], 1):
+            for tmpl in ('[xl|{}]', '[*|{}]'):
+                base = sel(tmpl.format(local), NSMAP)
+                for v in case_variants(rng, local):
+                    s = tmpl.format(v)
+                    got = sel(s, NSMAP)
+                    state['ns_attr_variants'] += 1
+                    if not xml and got != base:
+                        bad('HTML attribute names fold (namespaced attribute selector)', s, NSMAP, base_selector=tmpl.format(local))
+                    if nsaware:
+                        if tmpl[1] == '*':
+                            want = [id(e) for e in els if any(eq(str(k) if getattr(k, 'namespace', None) is None else k.name, v)
+                                                              for k in e.attrs)]
+                        else:
+                            want = [id(e) for e in els if any(getattr(k, 'namespace', None) == gen.XLINK and eq(k.name, v)
+                                                              for k in e.attrs)]
+                        if got != want:
+                            bad('namespaced attribute name rule against the stored names', s, NSMAP)
+        if plain_xml:
+            for h in HTML_ONLY:
+                if sv.select(h, soup):
+                    bad('HTML-only pseudo-class matched in plain XML', h)
+    except Exception as e:
+        state['bad'].append({'rule': f'exception {type(e).__name__}: {e}', 'document': label, 'case': base_case})
+    del state['bad'][n0 + 3:]        # at most three records per document
+
+
+def corr_selectors(rng, soup):
+    """Selectors for the PY ≡ model comparison: names taken from the document and from the vocabulary, case-permuted."""
+    els = gen.elements(soup)
+    keys = sorted({str(k) for e in els for k in e.attrs if ':' not in str(k)})
+    names = sorted({e.name for e in els if ':' not in e.name})
+    tag = recase(rng, rng.choice(names)) if names and rng.random() < 0.5 else rng.choice(TAGS + FOREIGN + MATHML + ['svg'])
+    an = recase(rng, rng.choice(keys)) if keys and rng.random() < 0.6 else rng.choice(ANAMES + SVG_ATTRS + MATH_ATTRS)
+    an2 = rng.choice(ANAMES)
+    av = rng.choice(AVALS)
+    flag = rng.choice(['', '', ' i', ' s'])
+    local = recase(rng, rng.choice(['href', 'title', 'type']))
+    return [(tag, None), (f'[{an}]', None), (f'{tag}[{an2}="{av}"{flag}]', None), (f'[{an}="{av}"{flag}]', None),
+            (f'[{an2}^="{av[:2]}"{flag}]', None), (rng.choice(HTML_ONLY), None), (f'{tag} > [{an}]', None),
+            (rng.choice(['[xl|{}]', '[*|{}]', '[xl|{}="{}" i]']).format(local, av), NSMAP)]
+
+
+API_KINDS = {'html': 'api:html (no namespaces)', 'html5': 'api:html5 (XHTML namespace, not XML)',
+             'xhtml': 'api:xhtml', 'xml': 'api:xml'}
 
 
 def make_cases_factory(state):
@@ -73,74 +248,48 @@ def make_cases_factory(state):
         cases = []
         while len(cases) < n:
             top = [tree(rng) for _ in range(rng.randint(1, 2))]
+            # (1) the tree as markup through every parser
             variants = gen.parse_variants(top)
             for pname, soup in variants.items():
-                xml = bool(soup._is_xml)
-                plain_xml = pname == 'xml'
-                els = gen.elements(soup)
-                tag = rng.choice(TAGS + FOREIGN + ['svg'])
-                an = rng.choice(ANAMES)
-                av = rng.choice(AVALS)
-                flag = rng.choice(['', '', ' i', ' s'])
-                sels = [tag, f'[{an}]', f'{tag}[{an}="{av}"{flag}]', f'[{an}="{av}"{flag}]', f'[{an}^="{av[:2]}"{flag}]',
-                        rng.choice(HTML_ONLY), f'{tag} > [{an}]']
-                state['checks'] += 1
-                try:
-                    base = [id(e) for e in sv.select(tag, soup)]
-                    for v in case_variants(rng, tag):
-                        got = [id(e) for e in sv.select(v, soup)]
-                        if not xml and got != base:
-                            state['bad'].append({'rule': 'HTML tag names fold', 'parser': pname, 'selector': tag, 'variant': v})
-                        if xml:
-                            want = [id(e) for e in els if e.name == v]
-                            if got != want:
-                                state['bad'].append({'rule': 'XML tag names are exact', 'parser': pname, 'selector': v})
-                    baseA = [id(e) for e in sv.select(f'[{an}]', soup)]
-                    for v in case_variants(rng, an):
-                        got = [id(e) for e in sv.select(f'[{v}]', soup)]
-                        if not xml and got != baseA:
-                            state['bad'].append({'rule': 'HTML attribute names fold', 'parser': pname, 'selector': f'[{an}]', 'variant': f'[{v}]'})
-                        if xml and got != [id(e) for e in els if v in e.attrs]:
-                            state['bad'].append({'rule': 'XML attribute names are exact', 'parser': pname, 'selector': f'[{v}]'})
-                    got = [id(e) for e in sv.select(f'[{an}="{av}"{flag}]', soup)]
-                    insens = flag == ' i' or (flag == '' and an.lower() == 'type' and not xml)
-                    want = []
-                    for e in els:
-                        sval = stored(e, an, xml)
-                        if sval is None:
-                            continue
-                        if (sval.lower() == av.lower()) if insens else (sval == av):
-                            want.append(id(e))
-                    if got != want:
-                        state['bad'].append({'rule': 'value case rule', 'parser': pname, 'selector': f'[{an}="{av}"{flag}]',
-                                             'got': len(got), 'want': len(want)})
-                    if plain_xml:
-                        for h in HTML_ONLY:
-                            if sv.select(h, soup):
-                                state['bad'].append({'rule': 'HTML-only pseudo-class matched in plain XML', 'parser': pname, 'selector': h})
-                except Exception as e:
-                    state['bad'].append({'rule': f'exception {type(e).__name__}: {e}', 'parser': pname})
-                for b in state['bad'][-3:]:
-                    b.setdefault('markup', str(soup))
-                for s in sels:
-                    if len(cases) < n:
-                        cases.append({'markup': str(soup), 'parser': {'xhtml': 'xml'}.get(pname, pname), 'selector': s,
-                                      'queries': [('select', [], 0)]})
+                doc = {'markup': str(soup), 'parser': {'xhtml': 'xml'}.get(pname, pname)}
+                eval_rules(rng, state, pname, soup, pname in ('html5lib', 'xhtml', 'xml'), pname == 'xml', doc)
+                for s, ns in corr_selectors(rng, soup):
+                    cases.append({**doc, 'selector': s, 'ns': ns, 'queries': SELECT_ALL})
+            # (2) the tree stored through the bs4 object API, attribute names in whatever case the program chose
+            atop = [api_tree(rng, t) for t in top]
+            for kind, label in API_KINDS.items():
+                soup = gen.build_doc(kind, atop)
+                doc = {'kind': kind, 'tree': atop}
+                eval_rules(rng, state, label, soup, kind != 'html', kind == 'xml', doc)
+                for s, ns in corr_selectors(rng, soup)[:6] if rng.random() < 0.5 else corr_selectors(rng, soup)[2:]:
+                    cases.append({**doc, 'selector': s, 'ns': ns, 'queries': SELECT_ALL})
         return cases[:n]
     return make_cases
 
 
 def run(chk):
-    state = {'checks': 0, 'bad': []}
+    state = defaultdict(int)
+    state['bad'] = []
+    state['docs'] = Counter()
     orig = chk.finish
 
     def finish(**kw):
-        chk.coverage.update({'rule_instances': state['checks'], 'rule_violations': len(state['bad'])})
-        for i, b in enumerate(state['bad'][:5]):
-            chk.violation(f'rule{i}', {'what': 'case rule violated on the real code', **b}, concrete=True)
+        chk.coverage.update({'rule_instances': state['checks'], 'rule_violations': len(state['bad']),
+                             'rule_documents': dict(state['docs']),
+                             'rule_selector_variants': {k: state[k] for k in ('tag_variants', 'attr_variants',
+                                                                              'attr_variants_on_stored_uppercase_html',
+                                                                              'value_checks', 'ns_attr_variants')}})
+        # report up to five, one per kind of document first
+        seen, first, rest = set(), [], []
+        for b in state['bad']:
+            (rest if b['document'] in seen else first).append(b)
+            seen.add(b['document'])
+        for i, b in enumerate((first + rest)[:5]):
+            chk.violation(f'rule{i}', {'what': 'case rule violated on the real code', **b,
+                                       'replay_with': f'bin/check {PID} --replay <this file>'}, concrete=True)
         return orig(**kw)
     chk.finish = finish
-    return common_match.run(chk, PID, SOURCES, make_cases_factory(state), 1400, 60000, RULE,
+    return common_match.run(chk, PID, SOURCES, make_cases_factory(state), 2600, 60000, RULE,
                             'SoupVerif.Properties.C11 / correspondence PY select ≡ Model select on parser-built trees')
 
 
